@@ -10,27 +10,34 @@ import numpy as np
 LEVEL = "proof"
 MANIFEST_ENTRY = {
     "category": "proof",
-    "text": "Lean 4 theorems over an executable model of imaging_utils' registration code (spatial circular cross-correlation, "
-            "first-maximum argmax, parabolic refinement, Python float modulo centring, torch half-pixel rounding, and the "
-            "upsampling-grid index arithmetic + matrix-multiply DFT patch of both the NumPy and the torch variant): the "
-            "autocorrelation peaks at zero lag (strictly unless the image is periodic), an integer-shifted copy is located "
-            "exactly anywhere in the periodic cell with the returned shift mapping the second image onto the first, swapping "
-            "the images negates the coarse estimate, and identical images give zero shift at every upsampling factor (patch "
-            "maximum sits on the grid point that the index->offset conversion maps to 0). Sub-pixel accuracy is measured only. "
-            "The model is tied to the code on every run by exact (integer image) and float64 differential runs of the public "
-            "functions, their kernels and their users.",
+    "text": "Lean 4 theorems over an executable model of imaging_utils' registration code (the FFT formula "
+            "real(ifft2(fft2(ref)*conj(fft2(im)))) as defining DFT sums, first-maximum argmax, parabolic refinement, Python float "
+            "modulo centring, torch half-pixel rounding, the upsampling-grid index arithmetic + matrix-multiply DFT patch of both "
+            "the NumPy and the torch variant, the phase-ramp aligned image): the correlation theorem (FFT formula = spatial circular "
+            "cross-correlation, from the shared spectral core), the autocorrelation peaks at zero lag (strictly unless the image is "
+            "periodic), an integer-shifted copy is located exactly anywhere in the periodic cell by both estimators, the returned "
+            "aligned image (phase ramp = roll for integer shifts) reproduces the reference, swapping the images negates the result "
+            "for the NumPy and the torch estimator (torch.round is odd), and identical images give zero shift at every upsampling "
+            "factor: the patch maximum sits on the grid point the index->offset conversion maps to 0, it is strict exactly when no "
+            "other patch offset leaves all non-zero Fourier coefficients in phase (proved iff), which holds for every image of at "
+            "least 3x3 pixels with non-zero lowest coefficients on both axes (hypothesis-free corollary + 3x3 witness for all "
+            "factors); ties do occur for single-column and constant images (counterexample theorems). Sub-pixel accuracy is "
+            "measured only. The model is tied to the code on every run by exact (integer image) and float64 differential runs of "
+            "the public functions, their kernels and their users (tomography, direct ptychography, drift align_translation).",
     "note": "Trusted: Lean kernel + propext/Classical.choice/Quot.sound; np.fft/torch.fft are assumed to compute the defining "
-            "sums (the coarse stage is modelled spatially; the correlation theorem linking it to the FFT formula is exercised "
-            "by the exact stream, not proved); IEEE rounding; torch float32 kernel precision in dftUpsample_torch. The 'within "
-            "1/upsample_factor' clause for sub-pixel shifts is decided by measurement on band-limited images only.",
-    "technique": "Lean 4 proof (sums over the periodic cell, argmax invariants, trigonometric bound) + model-vs-implementation correspondence",
+            "sums (exercised by every stream); IEEE rounding; torch float32 kernel precision in dftUpsample_torch. Moved from "
+            "measured to proved in round 2: the correlation theorem, the Fourier shift theorem for the aligned image, the strict "
+            "patch-maximum hypothesis (exact characterisation + sufficient condition + non-vacuity witness), torch swap negation. "
+            "Still measured only: the 'within 1/upsample_factor' clause for band-limited sub-pixel shifts (paths that do not "
+            "upsample are held to one pixel), swap negation of the upsampled branches (NumPy exact to 1e-7, torch to 1/up).",
+    "technique": "Lean 4 proof (sums over the periodic cell, argmax invariants, roots-of-unity orthogonality/Plancherel, trigonometric bound, floor arithmetic) + model-vs-implementation correspondence",
 }
 RULE = ("a case is one estimator call on one image pair; distinct non-trivial = distinct (stream, variant, shape parity/squareness, "
         "upsample factor, shift class [zero/within half/beyond half/at half/sub-pixel], max_shift used, fft_input/fft_output flags) "
         "with a non-constant image; the drift stream adds (canvas parity, stack size, upsample factor)")
 TRUSTED = ["np.fft.fft2/ifft2 and torch.fft.fft2/ifft2 compute the defining DFT sums (exercised by every stream)",
            "torch.argmax/np.argmax return the first maximum; torch.round rounds half to even",
-           "the correlation theorem (FFT product = spatial circular cross-correlation) is not proved in Lean; it is what the exact stream measures"]
+           "the correlation theorem (FFT product = spatial circular cross-correlation) is proved (Props/C13.correlation_theorem); the exact stream additionally measures it on the real FFTs"]
 ASSUMPTIONS = ["image pairs whose correlation maximum is not unique (exact integer test) or whose float margins are below 1e-6 are rejected by the generator (counted in the distribution)",
                "sub-pixel accuracy (<= 1/upsample_factor) is evaluated on band-limited images without Nyquist content only; paths that do not upsample (NumPy up<=1, torch up<=2: parabolic estimate, torch rounds it to half a pixel) are held to one pixel",
                "the torch upsampling kernels are built in float32 by the library; that path is compared with tolerance 5e-4"]
